@@ -254,9 +254,10 @@ class Render:
         return i
 
     @staticmethod
-    def tostr(sw):
+    def tostr(sw, default=False):
+        # the default branch names the value with str(): it may be None or anything no case matched
         f = sw['field']
-        return f"{sw['fenum']}(data._{f}).name" if sw['fenum'] else f"str(data._{f})"
+        return f"{sw['fenum']}(data._{f}).name" if sw['fenum'] and not default else f"str(data._{f})"
 
     @staticmethod
     def instr_S(L, ind, i):
@@ -284,12 +285,13 @@ class Render:
                     has_default = True
                 else:
                     L.add(ind, f"{'if' if start else 'elif'} data._{f} == {c['keysrc']}:")
+                isd = c['key'][0] == 'default'
                 if c['cls'] is None:
                     L.add(ind + 1, f"if data._{dn} is not None:")
-                    L.add(ind + 2, f'raise SerializationError("Expected {dn} to be None for {f} " + {Render.tostr(i)} + ".")')
+                    L.add(ind + 2, f'raise SerializationError("Expected {dn} to be None for {f} " + {Render.tostr(i, isd)} + ".")')
                 else:
                     L.add(ind + 1, f"if not isinstance(data._{dn}, {c['cls']}):")
-                    L.add(ind + 2, f'raise SerializationError("Expected {dn} to be type {c["cls"]} for {f} " + {Render.tostr(i)} + ".")')
+                    L.add(ind + 2, f'raise SerializationError("Expected {dn} to be type {c["cls"]} for {f} " + {Render.tostr(i, isd)} + ".")')
                     L.add(ind + 1, f"{c['cls']}.serialize(writer, data._{dn})")
                 start = False
             if not has_default:
